@@ -111,6 +111,7 @@ class Kernel(object):
         self._mon_tool = None
         self.stopping = False
         self.single_preempt_at = None     # force exactly one preemption at this line-event index
+        self.line_hot = None              # {function name: pre-emption probability per line} overriding the default
         self.time = SimTime(self)
         CURRENT[0] = self
 
@@ -172,11 +173,11 @@ class Kernel(object):
 
     STALLS = (0.0, 0.0, 0.0005, 0.004, 0.03, 0.2)
 
-    def _park(self, t):
+    def _park(self, t, force_stall=False):
         """pre-emption: either a plain context switch or a stall of the thread for some virtual
         time (a descheduled thread does not stop the clock for everybody else)"""
         d = self.STALLS[self.sim.choose("preempt.stall", len(self.STALLS))]
-        if d == 0.0 or getattr(t, "no_stall", False):
+        if d == 0.0 or (getattr(t, "no_stall", False) and not force_stall):
             self._switch(t)
         else:
             self.block("preempted(%.4f)" % d, timeout=d)
@@ -325,9 +326,14 @@ class Kernel(object):
                 self.preemptions += 1
                 self._park(t)
             return
-        if self._line_p > 0 and self.sim.chance("preempt.line", self._line_p):
+        p = self._line_p
+        hot = False
+        if self.line_hot and code.co_name in self.line_hot:
+            p = self.line_hot[code.co_name]             # bias pre-emption into functions that change shared state
+            hot = True
+        if p > 0 and self.sim.chance("preempt.line", p):
             self.preemptions += 1
-            self._park(t)
+            self._park(t, force_stall=hot)
 
     def disable_line_preemption(self):
         if self._mon_tool is not None:
